@@ -122,7 +122,8 @@ class ComposeMonitor(taps.Monitor):
             if isinstance(c, Alignment):
                 ctx.fail("composition_returned_an_alignment", cls=ka, mech=self.direction + ":" + kb, result=type(c).__name__)
             h = np.asarray(c.h_matrix)
-            if not np.isfinite(h).all() or np.linalg.cond(h) > 1e10:
+            # (invertibility of an affine map is that of its linear part: the homogeneous 1 says nothing about units)
+            if not np.isfinite(h).all() or np.linalg.cond(h[:-1, :-1] if isinstance(c, mt.Affine) and h.shape[0] == h.shape[1] else h) > 1e10:
                 ctx.fail("composed_matrix_not_invertible", cls=ka, mech=self.direction + ":" + kb)
             probs = tx.honest(c) if st["honest_in"] else []
             if not st["honest_in"]:
@@ -387,7 +388,64 @@ def w_programs(ctx, rng, i):
     ctx.count_case(("program", d, tuple(ops)), nontrivial=ok.sum() >= 3, sample={"ops": ops, "dims": d} if i < 4 else None)
 
 
+def w_units(ctx, rng, i):
+    """Operands of extreme but legal magnitude: the composition law is a statement about maps, whatever their unit.
+    Similarity-family members with a huge / tiny scale and a generic rotation; scale objects whose factors are tiny or
+    nearly (not exactly) equal."""
+    import menpo.transform as mt
+    import menpo.shape as ms
+    d = 2 + i % 2
+    fam = (i // 2) % 3
+    if fam == 0:
+        mag = 10.0 ** (rng.uniform(4, 7.5) * rng.choice([-1.0, 1.0]))
+        h = np.eye(d + 1)
+        h[:d, :d] = gen.rotation_matrix(rng, d) * mag
+        h[:d, d] = rng.uniform(-5, 5, d) * max(1.0, mag)
+        if rng.random() < 0.5:
+            a = mt.Similarity(h)
+        else:
+            src = gen.general_position(rng, int(rng.integers(d + 2, 9)), d)
+            a = mt.AlignmentSimilarity(ms.PointCloud(src), ms.PointCloud(src @ h[:d, :d].T + h[:d, d]))
+        kb = ["Translation", "Rotation", "UniformScale", "AlignmentTranslation", "AlignmentRotation", "AlignmentUniformScale", "Similarity", "NonUniformScale"][rng.integers(0, 8)]
+        b, _ = tx.make(rng, kb, d)
+    else:
+        base = 10.0 ** rng.uniform(-9, -6) if fam == 1 else float(rng.uniform(0.5, 4.0))
+        def factors():
+            f = base * (1.0 + rng.choice([-1.0, 1.0], d) * 10.0 ** rng.uniform(-7, -5.2, d)) if fam == 2 else base * rng.uniform(1.0, 4.0, d)
+            return f
+        def scale_obj():
+            k = int(rng.integers(0, 3))
+            if k == 0:
+                return mt.NonUniformScale(factors())
+            if k == 1:
+                return mt.UniformScale(float(factors()[0]), d)
+            src = gen.general_position(rng, 6, d)
+            return mt.AlignmentUniformScale(ms.PointCloud(src), ms.PointCloud(src * float(factors()[0])))
+        a, b = scale_obj(), scale_obj()
+        if isinstance(a, mt.UniformScale) and isinstance(b, mt.UniformScale):
+            a = mt.NonUniformScale(factors())
+    x = probe_pts(d)
+    for direction in ("before", "after"):
+        for first, second in ((a, b), (b, a)):
+            recv, arg = first, second
+            try:
+                c = getattr(recv, "compose_" + direction)(arg)
+            except Exception as e:
+                ctx.fail("compose_raised", cls=type(recv).__name__, mech="units:%s:%s:%s" % (direction, type(arg).__name__, type(e).__name__), error=repr(e)[:160])
+                continue
+            f1, f2 = (recv, arg) if direction == "before" else (arg, recv)
+            ref = f2.apply(f1.apply(x))
+            got = c.apply(x)
+            ctx.tap("composition_law_any_unit", "calls"); ctx.tap("composition_law_any_unit", "checked")
+            mag_ = max(1e-300, float(np.abs(ref).max()))
+            if not (tx.maxdiff(got, ref) <= 1e-9 * mag_):
+                ctx.fail("composition_law_violated", cls=type(recv).__name__, mech="units:%s:%s" % (direction, type(arg).__name__), rel_err=tx.maxdiff(got, ref) / mag_,
+                         result=type(c).__name__)
+    ctx.count_case(("units", fam, d, type(a).__name__, type(b).__name__), nontrivial=True)
+
+
 WORKLOADS = [
+    Workload("units", w_units, quick=600, thorough=20000),
     Workload("pairs", w_pairs, quick=2 * (17 * 17 + 14 * 14) * 4, thorough=2 * 17 * 17 * 4 * 40),
     Workload("programs", w_programs, quick=1500, thorough=80000),
     Workload("hostile_representations", w_hostile_reps, quick=2 * 4 * 16, thorough=2 * 4 * 16 * 20),
